@@ -28,7 +28,8 @@ SM_ASSUME = [
 def mkjob(shape, K, budget, ext_per_iter=1, nsn_depth=1, variant=0, double_nsn=False, rewrite=False, ext=True):
     tg, et = TARGETS[shape]
     return dict(shape=shape, variant=variant, sym_durations=True,
-                cfg=dict(K=K, act_budget=budget, nsn_depth=nsn_depth, targets=tg, ext_targets=et if ext else [],
+                cfg=dict(K=K, act_budget=budget, nsn_depth=nsn_depth, targets=tg, ext_targets=et,
+                         ext_menu="full" if ext else "engage-only",
                          ext_per_iter=ext_per_iter, double_nsn=double_nsn, rewrite_durations=rewrite))
 
 
